@@ -46,7 +46,7 @@ Class(o) == ":newer-source=" \o Newer(o) \o ":generates=" \o (IF ~cfg.gen THEN "
             \o (IF cfg.collide THEN ":colliding-names" ELSE "")
 
 ReadOnly == {"dry", "status", "list", "listjson", "summary", "drydir", "dryfailpre"}
-RunModes == {"run", "other", "fail1", "fail2", "failpre", "cancelsib", "prompt", "kill1", "kill2"}
+RunModes == {"run", "other", "fail1", "fail2", "failpre", "depfail1", "cancelsib", "prompt", "kill1", "kill2"}
 
 WorldInit ==
   /\ files = [f \in Files |-> [c |-> IF f = "b" THEN 0 ELSE 1, m |-> 1]]
